@@ -119,6 +119,23 @@ def ok_facts(g, view_info, stack=()):
     return out
 
 
+def range_bounds(fn, e):
+    """(lo expr, hi expr, inclusive) of a range value expression: RangeInclusive::new(lo, hi) or a
+    Range / RangeInclusive aggregate"""
+    if e is None:
+        return None
+    if e.k == "call" and e.a.name == "new" and "RangeInclusive" in e.a.path and len(e.a.args) == 2:
+        ax = call_arg_exprs(e.a)
+        return ax[0], ax[1], True
+    if e.k == "agg" and e.a and e.c and len(e.c) == 2:
+        nm = e.a.split("::")[-1]
+        if nm == "Range":
+            return e.c[0], e.c[1], False
+        if nm == "RangeInclusive":
+            return e.c[0], e.c[1], True
+    return None
+
+
 def edge_facts(fn, view_info, stack=(), interproc=True):
     """{(switch_bb, target_bb): [(op, lhs_term, rhs_term), ...]}.  Besides the comparisons in this
     body, the Ok edge of a call to a crate-local Result-returning function carries that function's
@@ -172,6 +189,17 @@ def edge_facts(fn, view_info, stack=(), interproc=True):
                 if ft != tt:
                     out.setdefault((b, tt), []).append((NEG[e.b.a], l, r))
                     out.setdefault((b, ft), []).append((e.b.a, l, r))
+        elif e.k == "call" and e.a.name == "contains" and len(e.a.args) == 2 and "ops::Range" in e.a.path and 0 in arms:
+            # (lo..=hi).contains(&x) / (lo..hi).contains(&x): on the true edge lo <= x <= hi (x < hi)
+            rb = range_bounds(fn, call_arg_exprs(e.a)[0])
+            x = term_of(fn, call_arg_exprs(e.a)[1], view_info)
+            if rb is not None and x is not None and arms[0] != t["otherwise"]:
+                lo, hi, incl = rb
+                lo_t, hi_t = term_of(fn, lo, view_info), term_of(fn, hi, view_info)
+                if lo_t is not None:
+                    out.setdefault((b, t["otherwise"]), []).append(("Ge", x, lo_t))
+                if hi_t is not None:
+                    out.setdefault((b, t["otherwise"]), []).append(("Le" if incl else "Lt", x, hi_t))
         elif e.k == "call" and e.a.name in ("is_empty",) and len(e.a.args) == 1:
             ls = list(operand_locals(e.a.args[0]))
             if ls and 0 in arms:
